@@ -78,6 +78,55 @@ theorem request_when_unmarked (inner : Msg → M Msg) (m : Msg) (e : Exn) (w w' 
   · rw [transportWrite_ok _ _ hf]; simp [Marked, PDict.has_set_self]
   · rw [transportWrite_pass _ _ rest hf]; simp [Marked, PDict.has_set_self]
 
+/-- **A missing child of a KNOWN node: the handler's error does not look at the entry.** Whatever the
+registry holds for the node — the version it reported (`1.4`, the placeholder default of the id-request
+handler; `1.5.1`; `2.2`; no version at all), its type, sketch, battery, flags, other children,
+restored from a file or built by this run — a set or req for a child that entry does not have fails
+with the missing-child error and leaves everything as it was. -/
+theorem missing_child_raises_any_entry (m : Msg) (w : W) (nd : Node)
+    (hn : w.st.nodes.get? m.node = some nd) (hc : nd.children.get? m.child = none) :
+    hSet m w = (.error (.lib (.missingChild m.child)), w) ∧ hReq m w = (.error (.lib (.missingChild m.child)), w) := by
+  constructor
+  · simp only [hSet, M.bind, requireNode, M.getSt, hn, M.pure, hc, M.raise]
+  · simp only [hReq, M.bind, requireNode, M.getSt, hn, M.pure, hc, M.raise]
+
+/-- **… and the request is written, whatever the entry holds.** Protocol 2.0 or newer, version known,
+a set (`cmd = 1`) or req (`cmd = 2`) from a registered node — ANY entry `nd` — for a child the entry
+does not have, no request to that node outstanding, the next write not failing: the step's only
+write is the presentation request `n;255;3;0;19;` handed to the transport, it is outstanding
+afterwards, the registry is untouched and the caller gets the missing-child error.  (The request
+goes through the outgoing internal handler, which writes every internal message directly: nothing
+about the addressee's entry — in particular not the library version it reported — can keep the
+line from the transport.) -/
+theorem missing_child_request_any_entry (env : Env) (v : Ver) (hv : Ver.v20 ≤ v) (m : Msg) (w : W) (nd : Node)
+    (hcmd : m.cmd = 1 ∨ m.cmd = 2) (hn : w.st.nodes.get? m.node = some nd) (hc : nd.children.get? m.child = none)
+    (hpv : w.st.pv.isSome = true) (hm : ¬ Marked w.st m.node)
+    (hf : w.faults = [] ∨ ∃ rest, w.faults = .pass :: rest) :
+    (dispatch env v m w).1 = .error (.lib (.missingChild m.child)) ∧
+    (dispatch env v m w).2.writes = w.writes ++ [⟨encode (presentationRequest m.node), true⟩] ∧
+    Marked (dispatch env v m w).2.st m.node ∧
+    (dispatch env v m w).2.st.nodes = w.st.nodes := by
+  obtain ⟨hs, hr⟩ := missing_child_raises_any_entry m w nd hn hc
+  have key : ∀ inner : Msg → M Msg, inner m w = (.error (.lib (.missingChild m.child)), w) →
+      (wrapNC v (wrapMissingPV inner) m w).1 = .error (.lib (.missingChild m.child)) ∧
+      (wrapNC v (wrapMissingPV inner) m w).2.writes = w.writes ++ [⟨encode (presentationRequest m.node), true⟩] ∧
+      Marked (wrapNC v (wrapMissingPV inner) m w).2.st m.node ∧
+      (wrapNC v (wrapMissingPV inner) m w).2.st.nodes = w.st.nodes := by
+    intro inner hi
+    have hin : wrapMissingPV inner m w = (.error (.lib (.missingChild m.child)), w) := by
+      rw [wrapMissingPV_known inner m w (by rw [hi]; exact hpv), hi]
+    rw [wrapNC_new v _ hv]
+    obtain ⟨a, b, c⟩ := request_when_unmarked (wrapMissingPV inner) m _ w w hin (missing_errors_caught 0 m.child).2 hm hf
+    refine ⟨a, b, c, ?_⟩
+    have hm' : w.st.ibuf.has (presentationRequest m.node).key = false := by simpa [Marked] using hm
+    rw [wrapMissingNC_unmarked (wrapMissingPV inner) m _ w w hin (missing_errors_caught 0 m.child).2 hm']
+    rcases hf with hf | ⟨rest, hf⟩
+    · rw [transportWrite_ok _ _ hf]
+    · rw [transportWrite_pass _ _ rest hf]
+  rcases hcmd with h | h
+  · rw [dispatch_set env v m h]; exact key hSet hs
+  · rw [dispatch_req env v m h]; exact key hReq hr
+
 /-- **A request whose write did not complete does not count as sent** — whether the transport
 failed (the transport error is reported) or the listening task was cancelled while the request was
 being written (`asyncio.wait_for`, a timeout, `task.cancel()`: the `CancelledError` propagates):
@@ -475,6 +524,17 @@ example : NoRearm 7 {} [.recv {} "7;255;3;0;0;55\n".toList [.fail], .send none f
 
 /-- a node presentation of 7 under protocol 2.2 re-arms 7 -/
 example : rearms 7 { proto := .v22 } (.recv {} "7;255;0;0;17;2.3.2\n".toList []) = true := by decide
+
+/-- the placeholder entry the id-request handler registers (version "1.4", no children) for node 1, gateway
+on 2.2: a set for child 3 meets the hypotheses of `missing_child_request_any_entry` and the request is written -/
+example :
+    let w : W := { st := { nodes := [(1, placeholderNode)], pv := some "2.2".toList, proto := .v22 } }
+    let m : Msg := ⟨1, 3, 1, 0, 0, "21.5".toList⟩
+    (dispatch {} .v22 m w).2.writes = [⟨"1;255;3;0;19;\n".toList, true⟩] := by
+  intro w m
+  have h := (missing_child_request_any_entry {} .v22 (by decide) m w placeholderNode (Or.inl rfl) (by decide) (by decide)
+    (by decide) (by simp [Marked, w, PDict.has, PDict.get?]) (Or.inl rfl)).2.1
+  rw [h]; decide
 
 example : OldAlong {} [.send none false [], .send none true []] := ⟨Or.inl rfl, Or.inl rfl, trivial⟩
 
